@@ -28,6 +28,19 @@ expected is derived from that text by the small resolver below (tab splitting on
     (captured segments) and nested sets; induced edges = every E line both of whose segments are in that set;
     induced_set = both; compared as sets.
 
+  * the answers are those of the graph AS IT IS when they are asked for (cases with "probes", 15%): a second Gfa
+    receives the same lines in the same order, and between arrivals (after the lines no. case["probes"]) every group
+    which is already there is asked one of captured_path / captured_segments / captured_edges (O) or induced_set /
+    induced_segments_set / induced_edges_set (U); what it answers on the incomplete document is not judged (only
+    foreign exceptions are reported).  Once all lines have arrived every group must answer all three questions
+    exactly as in the Gfa which was asked only at the end (the one judged by the checks above): the same walk and
+    projections, the same induced sets, an error where that one raises an error (stale-captured-path,
+    stale-captured-path-outcome, stale-induced-set, stale-induced-set-outcome, line-refused-after-question).  A walk
+    depends on the graph and on the nested groups, not only on the spelling of the items of the group: the lines
+    which arrive after a question are mostly further lines of paths that other paths nest, edges parallel to an
+    edge which a path leaves out (the step becomes ambiguous), and segments / edges / whole groups whose absence
+    made a path impossible to compute.
+
 Generator: see RULE.  The shapes the walk construction distinguishes are drawn explicitly, not left to chance: the
 four combinations of end items of a path (end segment stated / left to its edge), the item that follows or precedes
 a nested reference (the junction segment stated again, the edge leaving it, the next segment with the edge left
@@ -43,6 +56,8 @@ NOT CHECKED (doubtful, the property text does not settle it):
   * an edge that fits a step in both readings (e = A+ A-: e+ and e- are the same step);
   * groups whose nested path is itself doubtful; U groups that (transitively) mention a path that is not a
     definite walk; g.validate() (it does not look at contiguity at all);
+  * what a group answers while the document is incomplete (questions between arrivals); removal of lines,
+    disconnecting and re-adding a group between two questions (only arrivals change the graph here);
   * order and multiplicity inside the returned induced lists; O/U lines without identifier (`*`), groups that
     mention gaps or fragments, paths that mention sets, cyclic nesting.
 """
@@ -59,7 +74,13 @@ RULE = ("GFA2 graphs of 2-5 segments and 1-8 edges (dovetails, containments, int
         "probability 0.8, nesting depth up to 5); every case with a nested reference is also resolved with all "
         "references reversed twice through alias groups; U "
         "items mix segments, edges, paths and sets; 35% of the groups are split over 2-3 lines (tags: disjoint, "
-        "repeated-equal, contradictory); lines arrive in random order in 60% of the cases. Non-trivial: at least one "
+        "repeated-equal, contradictory); lines arrive in random order in 60% of the cases. 15% of the cases are asked "
+        "BETWEEN arrivals (case['probes']): an early part (most segments and edges, the first line of most groups), the "
+        "questions, then the late lines (75% of the further lines of groups - paths nested by others are split with "
+        "probability 0.8 or get a further line continuing their walk with probability 0.5 -, half of the edges that "
+        "repeat an adjacency (35% of the edges there), 12% of the other edges and of the first lines of groups, 5% of "
+        "the segments), with further questions at random places; at the end every group must answer as in a Gfa that "
+        "was asked only once. Non-trivial: at least one "
         "group whose expectation is definite (walk, error or induced set).")
 CASE_TIMEOUT = 60
 INV = G.INV
@@ -426,14 +447,18 @@ def elide(rng, c, walk, keep_first=None, keep_last=None, first="?", last="?"):
 
 
 def gen_case(rng, tier, i):
+    # questions between arrivals (see the module docstring): 15% of the cases
+    probing = rng.random() < 0.15
     nseg = rng.randint(2, 5)
     segs = list("ABCDE")[:nseg]
     lines_s = ["S\t%s\t%d\t*" % (s, SEGLEN[s]) for s in segs]
     lines_e = []
     ne = rng.randint(1, 8)
     specs = []
+    repeated = set()     # indices (in lines_e) of the edges which repeat the adjacency of an earlier edge
     for j in range(ne):
-        if specs and rng.random() < 0.2:
+        if specs and rng.random() < (0.35 if probing else 0.2):
+            repeated.add(j)
             a, o1, b, o2, kind = rng.choice(specs)
             if rng.random() < 0.5:
                 a, o1, b, o2 = b, INV[o2], a, INV[o1]       # the same adjacency written from the other strand
@@ -454,7 +479,7 @@ def gen_case(rng, tier, i):
     onames, unames = [], []
     # tower: the O groups form a chain, each one tends to nest the previous one (references to references, bare or
     # extended), so that deep nesting with every combination of signs is common
-    tower = rng.random() < 0.3
+    tower = rng.random() < (0.5 if probing else 0.3)
     ng = rng.randint(3, 6) if tower else rng.randint(1, 6)
     for j in range(ng):
         if rng.random() < (0.85 if tower else 0.65):
@@ -530,9 +555,22 @@ def gen_case(rng, tier, i):
             c.kind[gid] = ("U", gid)
             unames.append(gid)
     out_g = []
+    first_chunk = set()  # indices (in out_g) of the first line of each group
+    nested_somewhere = set(r for _, rt_, its in glines if rt_ == "O" for r in (x[:-1] for x in its) if r in onames)
     for gid, rt, items in glines:
         chunks = [items]
-        if len(items) >= 2 and rng.random() < 0.35:
+        first_chunk.add(len(out_g))
+        grown = []
+        if probing and gid in nested_somewhere and rng.random() < 0.5:
+            # a path which other paths nest gets a further line which continues its walk (it will mostly arrive after
+            # the outer paths have been asked for their walk)
+            r = resolve_group(c, gid, memo)
+            if r[0] == "walk":
+                ext = random_walk(rng, c, r[1][-1][1:], rng.randint(1, 2))
+                grown = elide(rng, c, ext[1:]) if rng.random() < 0.7 else elide(rng, c, ext, first="S")
+        if grown:
+            chunks = [items, grown]
+        elif len(items) >= 2 and rng.random() < (0.35 if not probing else 0.8 if gid in nested_somewhere else 0.5):
             k = rng.randint(1, len(items) - 1)
             chunks = [items[:k], items[k:]]
             if len(chunks[1]) >= 2 and rng.random() < 0.3:
@@ -548,6 +586,8 @@ def gen_case(rng, tier, i):
             elif tagmode == "conflict":
                 tg = ["xx:i:%d" % (1 if j == 0 else rng.choice([1, 2]))] + (["t%s:Z:v" % "abc"[j]] if rng.random() < 0.5 else [])
             out_g.append("\t".join([rt, gid, " ".join(ch)] + tg))
+    if probing:
+        return arrange_probing(rng, lines_s, lines_e, out_g, repeated, first_chunk)
     lines = lines_s + lines_e + out_g
     if rng.random() < 0.6:
         rng.shuffle(lines)
@@ -555,6 +595,35 @@ def gen_case(rng, tier, i):
         rng.shuffle(out_g)
         lines = lines_s + lines_e + out_g
     return {"version": "gfa2", "lines": lines, "vlevel": rng.choice([0, 1, 1, 1, 2, 3])}
+
+
+def arrange_probing(rng, lines_s, lines_e, out_g, repeated, first_chunk):
+    """Arrival order for the cases in which the groups are asked for their paths / sets BETWEEN arrivals: an early
+    part (most segments and edges, the first line of most groups), a question, then the late lines: mostly the further
+    lines of groups which are already there (so a path nested in another one grows after the outer one was asked),
+    edges which repeat the adjacency of an earlier edge (so a step which was unique becomes ambiguous), a few other
+    edges, segments and whole groups (so a path which could not be computed becomes computable).  Further questions at
+    random places.  case["probes"] = indices i: the question is asked after line i has arrived."""
+    early, late = [], []
+    for j, l in enumerate(lines_s):
+        (late if rng.random() < 0.05 else early).append(l)
+    for j, l in enumerate(lines_e):
+        (late if rng.random() < (0.5 if j in repeated else 0.12) else early).append(l)
+    for j, l in enumerate(out_g):
+        (late if rng.random() < (0.12 if j in first_chunk else 0.75) else early).append(l)
+    if rng.random() < 0.3:
+        rng.shuffle(early)
+    if rng.random() < 0.35:
+        rng.shuffle(late)
+    if not early:
+        early, late = late[:1], late[1:]
+    lines = early + late
+    probes = {len(early) - 1}
+    if len(late) >= 2 and rng.random() < 0.5:
+        probes.add(rng.randrange(len(early), len(lines) - 1))
+    if len(early) >= 2 and rng.random() < 0.3:
+        probes.add(rng.randrange(len(early) - 1))
+    return {"version": "gfa2", "lines": lines, "vlevel": rng.choice([0, 1, 1, 1, 2, 3]), "probes": sorted(probes)}
 
 
 # ================================================================================================ module API
@@ -591,6 +660,18 @@ def tags(case):
         t.add("multiline")
     if c.refused:
         t.add("tag-conflict")
+    if case.get("probes"):
+        t.add("asked-between-arrivals")
+        for p0 in case["probes"]:
+            there = set(gid for gid, idxs in c.group_lines.items() if idxs[0] <= p0)
+            for idx, l in enumerate(case["lines"]):
+                if idx <= p0:
+                    continue
+                f_ = l.split("\t")
+                if f_[0] == "O" and f_[1] in there and any(f_[1] in [r for r, _ in c.O[o]] for o in there if o in c.O):
+                    t.add("nested-path-grows-after-question")
+                if f_[0] == "E":
+                    t.add("edge-arrives-after-question")
     f = [l[0] for l in case["lines"]]
     if f != sorted(f, key=lambda x: "SEOU".index(x)):
         t.add("shuffled-arrival")
@@ -619,7 +700,29 @@ def signature(case, failure):
 
 
 def shrink(case, failure):
-    return G.shrink_lines(case, failure, oracle, signature)
+    if not case.get("probes"):
+        return G.shrink_lines(case, failure, oracle, signature)
+    # greedy line removal; the questions stay attached to the moment (after the same preceding line)
+    sig = signature(case, failure)
+    cur = dict(case)
+    runs = 0
+    progress = True
+    while progress and runs < 150:
+        progress = False
+        for i in range(len(cur["lines"]) - 1, -1, -1):
+            if len(cur["lines"]) < 2 or runs >= 150:
+                break
+            cand = dict(cur, lines=cur["lines"][:i] + cur["lines"][i + 1:],
+                        probes=sorted(set(q for q in (p - 1 if p >= i else p for p in cur["probes"]) if q >= 0)))
+            runs += 1
+            try:
+                ok = any(signature(cand, f) == sig for f in (oracle(cand) or []))
+            except Exception:  # noqa
+                ok = False
+            if ok:
+                cur = cand
+                progress = True
+    return cur
 
 
 def lib_walk(c, p):
@@ -785,4 +888,107 @@ def oracle(case):
         alle = eset([x for rt, x in gall if rt == "E"])
         if (alls, alle) != (gs, ge) or any(rt not in "SE" for rt, x in gall):
             F.append("induced-set-not-union: %s" % desc)
+    if case.get("probes"):
+        F += oracle_probed(gfapy, case, c, exp_o, exp_u, g)
+    return F
+
+
+# ================================================================================================ questions between arrivals
+QUESTIONS = {"O": ("captured_path", "captured_segments", "captured_edges"),
+             "U": ("induced_set", "induced_segments_set", "induced_edges_set")}
+
+
+def _answer(gfapy, c, ln, name):
+    """one answer of a group line, as an outcome; walks as token lists, sets as sorted lists of (record type, name)
+    without repetitions"""
+    if name.startswith("captured"):
+        return lib.outcome(lambda: lib_walk(c, getattr(ln, name)))
+    return lib.outcome(lambda: sorted(set((x.record_type, str(x) if gfapy.is_placeholder(x.name) else str(x.name))
+                                          for x in getattr(ln, name))))
+
+
+def _part(name, whole):
+    """the answer to the question `name` which follows from the answer `whole` to captured_path / induced_set"""
+    if name in ("captured_path", "induced_set"):
+        return whole
+    rt = "S" if "segments" in name else "E"
+    return [t for t in whole if t[0] == rt]
+
+
+def oracle_probed(gfapy, case, c, exp_o, exp_u, g):
+    """The paths and sets are those of the graph AS IT IS when the question is asked.  A second Gfa receives the same
+    lines in the same order, and after the lines case["probes"] every group which is there is asked for its captured
+    path / segments / edges or its induced sets (the answers on the incomplete document are not judged, except that
+    they must not be foreign exceptions).  When all lines have arrived every group must answer exactly as in the Gfa
+    `g` which was asked only at the end (and which the checks above have judged): the same walk, the same
+    projections, the same induced sets, an error where that one gives an error."""
+    F = []
+    lines = case["lines"]
+    probes = set(p for p in case["probes"] if 0 <= p < len(lines))
+    gp = gfapy.Gfa(version="gfa2", vlevel=case.get("vlevel", 1))
+    first_line = {gid: idxs[0] for gid, idxs in c.group_lines.items()}
+    asked = {}
+    for idx, l in enumerate(lines):
+        r = lib.outcome(gp.add_line, l)
+        if r[0] == "foreign" or (r[0] != "ok" and idx not in c.refused):
+            F.append("%s: %s adding %r after questions were asked at %r (arrival order %r)" % (
+                "foreign-exception" if r[0] == "foreign" else "line-refused-after-question", r[1], l,
+                sorted(p for p in probes if p < idx), lines[:idx]))
+            return F
+        if idx in probes:
+            for gid in sorted(c.group_lines):
+                if first_line[gid] > idx:
+                    continue
+                ln = gp.line(gid)
+                if ln is None or ln.virtual or ln.record_type not in "OU":
+                    continue
+                asked.setdefault(gid, []).append(idx)
+                # one question per group and moment (the three questions of a kind of group take turns)
+                name = QUESTIONS[ln.record_type][(idx + len(asked[gid])) % 3]
+                a = _answer(gfapy, c, ln, name)
+                if a[0] == "foreign":
+                    F.append("foreign-exception: %s from %s of %s when only %r have arrived" % (a[1], name, gid, lines[:idx + 1]))
+    if F:
+        return F
+
+    def shw(a):
+        if a[0] != "ok":
+            return "raises " + a[1]
+        return show(c, a[1]) if a[1] and isinstance(a[1][0], tuple) and len(a[1][0]) == 3 else repr(a[1])
+
+    for gid in sorted(c.group_lines):
+        l1, l2 = g.line(gid), gp.line(gid)
+        if l1 is None or l2 is None or l1.virtual or l2.virtual:
+            if (l1 is None or l1.virtual) != (l2 is None or l2.virtual):
+                F.append("stale-group-missing: %s after questions at %r" % (gid, sorted(probes)))
+            continue
+        if l1.record_type != l2.record_type or l1.record_type not in "OU":
+            continue
+        # the Gfa which was asked only at the end: one computation, the projections follow from it
+        whole = _answer(gfapy, c, l1, QUESTIONS[l1.record_type][0])
+        for name in QUESTIONS[l1.record_type]:
+            x = whole if whole[0] != "ok" else ("ok", _part(name, whole[1]))
+            y = _answer(gfapy, c, l2, name)
+            if "foreign" in (x[0], y[0]):
+                if y[0] == "foreign" and x[0] != "foreign":
+                    F.append("foreign-exception: %s from %s of %s after questions at %r" % (y[1], name, gid, sorted(probes)))
+                break
+            if x[0] == y[0] and (x[0] != "ok" or x[1] == y[1]):
+                continue
+            rt = "O" if gid in c.O else "U"
+            its = " ".join(a + b for a, b in c.O[gid]) if gid in c.O else " ".join(c.U[gid])
+            exp = ""
+            if gid in c.O and exp_o[gid][0] != "doubt":
+                exp = "; the items imply " + {"walk": "the walk " + show(c, exp_o[gid][1] or []), "nc": "an error (not contiguous)",
+                                              "ambig": "an error (ambiguous)"}[exp_o[gid][0]]
+            elif gid in c.U and exp_u[gid] is not None:
+                exp = "; the induced segments are %r" % sorted(exp_u[gid])
+            when = asked.get(gid, [])
+            later = [l for i, l in enumerate(lines) if when and i > when[0]]
+            F.append("stale-%s%s: %s %s %s: %s is %s in a Gfa whose groups were asked for their paths / sets while the lines "
+                     "were arriving (this group after line(s) no. %r, i.e. before %r arrived); in a Gfa which received the "
+                     "same lines and was asked only at the end it is %s%s" % (
+                         "captured-path" if rt == "O" else "induced-set", "" if x[0] == y[0] else "-outcome", rt, gid, its,
+                         name, shw(y), when, later, shw(x), exp))
+            break
     return F
